@@ -433,3 +433,16 @@ pub fn boundary_values(w: u32) -> Vec<u128> {
     v.dedup();
     v
 }
+
+/// Canonical key of a floating point (uninterpreted) operation, accepting both the
+/// P-Code mnemonic (`FLOAT_NEG`, `INT2FLOAT`) and CamelCase spellings (`FloatNegate`).
+pub fn float_key(name: &str) -> String {
+    let n: String = name.chars().filter(|c| *c != '_').collect::<String>().to_lowercase();
+    match n.as_str() {
+        "floatneg" => "floatnegate".to_string(),
+        "ceil" => "floatceil".to_string(),
+        "floor" => "floatfloor".to_string(),
+        "round" => "floatround".to_string(),
+        _ => n,
+    }
+}
